@@ -47,10 +47,24 @@ package local
 //@   ensures nblocks(self) == old(nblocks(self)) - 1
 //@ iface BlockList.HasSpace
 //@   requires [index] 0 <= blockIndex && blockIndex < nblocks(self)
+//@ iface BlockList.Get
+//@   requires [index] 0 <= blockIndex && blockIndex < nblocks(self)
+//@ iface BlockList.Put
+//@   requires [index] 0 <= blockIndex && blockIndex < nblocks(self)
+//@   requires [size] sizeBytes >= 0
+//@ iface BlockList.BlockReferenceToBlockIndex
+//@   ensures result2 ==> 0 <= result0 && result0 < nblocks(self)
+//@ iface BlockList.BlockIndexToBlockReference
+//@   requires [index] 0 <= blockIndex && blockIndex < nblocks(self)
+//@ iface BlockPutFinalizer.call
+//@   ensures err == nil ==> result0 >= 0
 
 // ------------------------------------- OldCurrentNewLocationBlobMap (OCN)
 
-//@ monotone OldCurrentNewLocationBlobMap.totalBlocksToBeReleased rely v <= self.totalBlocksReleased + nblocks(self.blockList)
+// quiet: the proviso "the medium is not corrupted" of C05 — no integrity
+// callback fires, so nobody but the lock holder writes the atomic counter.
+//@ ghost quiet bool
+//@ monotone OldCurrentNewLocationBlobMap.totalBlocksToBeReleased rely v <= self.totalBlocksReleased + nblocks(self.blockList) && (quiet ==> v == self.totalBlocksToBeReleased) guar v <= self.totalBlocksReleased + nblocks(self.blockList)
 
 //@ pure ocnCounts(lbm) = lbm.currentBlocks >= 0 && lbm.newBlocks >= 0
 //@     && len(lbm.oldBlocks) + lbm.currentBlocks + lbm.newBlocks == nblocks(lbm.blockList)
@@ -67,6 +81,17 @@ package local
 //@ pure ocnQ(lbm) = lbm.totalBlocksReleased <= lbm.totalBlocksToBeReleased
 //@     && lbm.totalBlocksToBeReleased <= lbm.totalBlocksReleased + nblocks(lbm.blockList)
 //@ pure ocnInv(lbm) = ocnCounts(lbm) && ocnPolicy(lbm) && ocnAlloc(lbm) && ocnQ(lbm)
+
+// Remaining-life bookkeeping (C05). pops = blocks released, pushes = blocks
+// appended since some reference point, oldLen0 = number of "old" blocks then.
+// Every push costs a block at most one unit of life, and blocks are dropped
+// only while the "old" group is full.
+//@ pure quietEntry(tbr, rel) = quiet && tbr == rel
+//@ pure lifeBudget(pops, oldLen, oldLen0, pushes, desiredOld) = pops >= 0 && pops + oldLen <= oldLen0 + pushes
+//@     && (pops > 0 ==> oldLen >= desiredOld)
+//@ pure ocnLife(lbm, tbr0, rel0, oldLen0, n0) = quietEntry(tbr0, rel0) ==>
+//@     lifeBudget(lbm.totalBlocksReleased - rel0, len(lbm.oldBlocks), oldLen0,
+//@                nblocks(lbm.blockList) + lbm.totalBlocksReleased - n0 - rel0, lbm.desiredOldBlocksCount)
 
 //@ func (*OldCurrentNewLocationBlobMap).popFront
 //@   requires nblocks(lbm.blockList) >= 1
@@ -109,16 +134,72 @@ package local
 //@   ensures [index] err == nil ==> len(lbm.oldBlocks) + lbm.currentBlocks <= result0 && result0 < nblocks(lbm.blockList)
 //@   ensures [old-bounded] err == nil ==> len(lbm.oldBlocks) <= max(lbm.desiredOldBlocksCount, old(len(lbm.oldBlocks)))
 //@   ensures [quarantine] err == nil ==> lbm.totalBlocksReleased >= old(lbm.totalBlocksToBeReleased)
+//@   ensures [life] quietEntry(old(lbm.totalBlocksToBeReleased), old(lbm.totalBlocksReleased)) ==>
+//@         lifeBudget(lbm.totalBlocksReleased - old(lbm.totalBlocksReleased), len(lbm.oldBlocks), old(len(lbm.oldBlocks)),
+//@                    nblocks(lbm.blockList) + lbm.totalBlocksReleased - old(nblocks(lbm.blockList)) - old(lbm.totalBlocksReleased),
+//@                    lbm.desiredOldBlocksCount)
 //@   loop 0 invariant ocnCounts(lbm) && ocnPolicy(lbm) && ocnAlloc(lbm) && ocnQ(lbm)
+//@   loop 0 invariant quietEntry(old(lbm.totalBlocksToBeReleased), old(lbm.totalBlocksReleased)) ==>
+//@         totalBlocksToBeReleased == lbm.totalBlocksReleased && unchanged(lbm.totalBlocksReleased) && unchanged(len(lbm.oldBlocks)) && unchanged(nblocks(lbm.blockList))
 //@   loop 0 invariant totalBlocksToBeReleased <= lbm.totalBlocksReleased + nblocks(lbm.blockList)
 //@   loop 0 invariant totalBlocksToBeReleased >= old(lbm.totalBlocksToBeReleased)
 //@   loop 0 invariant len(lbm.oldBlocks) <= old(len(lbm.oldBlocks))
 //@   loop 1 invariant ocnInv(lbm)
 //@   loop 1 invariant len(lbm.oldBlocks) <= old(len(lbm.oldBlocks))
 //@   loop 1 invariant lbm.totalBlocksReleased >= old(lbm.totalBlocksToBeReleased)
+//@   loop 1 invariant ocnLife(lbm, old(lbm.totalBlocksToBeReleased), old(lbm.totalBlocksReleased), old(len(lbm.oldBlocks)), old(nblocks(lbm.blockList)))
 //@   loop 2 invariant ocnInv(lbm) && lbm.newBlocks >= 1
 //@   loop 2 invariant len(lbm.oldBlocks) <= max(lbm.desiredOldBlocksCount, old(len(lbm.oldBlocks)))
 //@   loop 2 invariant lbm.totalBlocksReleased >= old(lbm.totalBlocksToBeReleased)
+//@   loop 2 invariant ocnLife(lbm, old(lbm.totalBlocksToBeReleased), old(lbm.totalBlocksReleased), old(len(lbm.oldBlocks)), old(nblocks(lbm.blockList)))
 //@   loop 3 invariant ocnInv(lbm) && lbm.newBlocks >= 1
 //@   loop 3 invariant len(lbm.oldBlocks) <= max(lbm.desiredOldBlocksCount, old(len(lbm.oldBlocks)))
 //@   loop 3 invariant lbm.totalBlocksReleased >= old(lbm.totalBlocksToBeReleased)
+//@   loop 3 invariant ocnLife(lbm, old(lbm.totalBlocksToBeReleased), old(lbm.totalBlocksReleased), old(len(lbm.oldBlocks)), old(nblocks(lbm.blockList)))
+
+// ---- resolver (C08): quarantined blocks do not resolve
+//@ func (*OldCurrentNewLocationBlobMap).BlockReferenceToBlockIndex
+//@   requires ocnQ(lbm)
+//@   ensures [in-range] result2 ==> 0 <= result0 && result0 < nblocks(lbm.blockList)
+//@   ensures [not-quarantined] result2 ==> lbm.totalBlocksReleased + result0 >= old(lbm.totalBlocksToBeReleased)
+
+//@ func (*OldCurrentNewLocationBlobMap).BlockIndexToBlockReference
+//@   requires 0 <= blockIndex && blockIndex < nblocks(lbm.blockList)
+
+// ---- Get: the needs-refresh verdict (C05) and the integrity callback (C08)
+//@ func (*OldCurrentNewLocationBlobMap).Get
+//@   ensures [verdict] result1 <==> location.BlockIndex < len(lbm.oldBlocks)
+
+// The getter is invoked with the store's lock held (read or write), so
+// totalBlocksReleased and the block count are stable while it runs.
+//@ func (*OldCurrentNewLocationBlobMap).Get$1
+//@   requires 0 <= location.BlockIndex && location.BlockIndex < nblocks(lbm.blockList)
+
+// The callback runs without the lock. What it needs of the captured value was
+// true when the getter computed it (released + index + 1 <= released + #blocks)
+// and stays true because released + #blocks never decreases.
+//@ func (*OldCurrentNewLocationBlobMap).Get$1$1
+//@   requires [stable] totalBlocksToBeReleased <= lbm.totalBlocksReleased + nblocks(lbm.blockList)
+//@   requires [upper] lbm.totalBlocksToBeReleased <= lbm.totalBlocksReleased + nblocks(lbm.blockList)
+//@   ensures [quarantined] !dataIsValid ==> lbm.totalBlocksToBeReleased >= totalBlocksToBeReleased
+//@   ensures [monotone] lbm.totalBlocksToBeReleased >= old(lbm.totalBlocksToBeReleased)
+//@   ensures [upper] lbm.totalBlocksToBeReleased <= lbm.totalBlocksReleased + nblocks(lbm.blockList)
+
+// ---- Put and its finalizer (C01 K01.5, C08)
+//@ func (*OldCurrentNewLocationBlobMap).Put
+//@   requires ocnInv(lbm) && sizeBytes >= 0
+//@   modifies lbm.oldBlocks, lbm.currentBlocks, lbm.newBlocks, lbm.totalBlocksReleased, lbm.totalBlocksToBeReleased,
+//@            lbm.allocationBlockIndex, lbm.allocationAttemptsRemaining, nblocks(lbm.blockList)
+//@   ensures [inv] ocnInv(lbm)
+
+// The finalizer runs under the write lock, possibly after rotations.
+// absoluteBlockIndex < released + #blocks held at allocation time and is
+// stable; quarantine (the Load) is re-read here.
+//@ func (*OldCurrentNewLocationBlobMap).Put$1$1
+//@   requires [q] ocnQ(lbm)
+//@   requires [stable] absoluteBlockIndex < lbm.totalBlocksReleased + nblocks(lbm.blockList) && nblocks(lbm.blockList) <= 1000000000
+//@   ensures [index] err == nil ==> 0 <= result0.BlockIndex && result0.BlockIndex < nblocks(lbm.blockList)
+//@   ensures [same-block] err == nil ==> lbm.totalBlocksReleased + result0.BlockIndex == absoluteBlockIndex
+//@   ensures [not-quarantined] err == nil ==> absoluteBlockIndex >= old(lbm.totalBlocksToBeReleased)
+//@   ensures [size] err == nil ==> result0.SizeBytes == sizeBytes && result0.OffsetBytes >= 0
+//@   ensures [error-code] err != nil ==> true
